@@ -132,3 +132,29 @@ def c09(run):
     trace, _ = run.exec("C09", cases=cases)
     run.validate("Trace_Bloom", trace)
     return finish(run, assumptions=BLOOM_ASSUME)
+
+
+MERKLE_ASSUME = ["double-SHA256 is an environment function: the harness logs the merkle tree of the block together with the 64 bytes hashed for every inner node (the duplication rule for a missing right sibling is checked by the specification) and, for arbitrary messages, the hash of every pair an independent walk meets",
+                 "transaction ids come from wire.MsgTx.TxHash()"]
+
+
+# --------------------------------------------------------------------------- C11
+@prop("C11", "Trace_PartialMerkle")
+def c11(run):
+    run.build()
+    run.mc("MC_PartialMerkle")
+    trace, _ = run.exec("C11")
+    run.validate("Trace_PartialMerkle", trace)
+    return finish(run, assumptions=MERKLE_ASSUME)
+
+
+# --------------------------------------------------------------------------- C12
+@prop("C12", "Trace_PartialMerkle")
+def c12(run):
+    run.build()
+    maxn = "6" if run.tier == "thorough" else "4"
+    cases = run.gen("Gen_PartialMerkle", env={"GEN_MAXN": maxn})
+    trace, _ = run.exec("C12", cases=cases)
+    run.validate("Trace_PartialMerkle", trace)
+    return finish(run, assumptions=MERKLE_ASSUME,
+                  extra_cov={"exhaustive_scope": "transaction count <= %s, hashes over 3 atoms, flag strings of 0..2 bytes: every equivalence class of messages reached by the lazily-chosen extraction machine" % maxn})
